@@ -693,6 +693,23 @@ def config_verbatim(F, R, rule='B.C06.config', fn_filter=None, floor=40):
                 val = bool(p.env[('c', l)])
             elif dv in ('True', 'False'):
                 val = dv == 'True'
+            else:
+                # (through temporaries that copy it)
+                for _ in range(4):
+                    if is_place(st) and not st['pl']['p']:
+                        ds_ = pn.defs().get(st['pl']['l'], [])
+                        if len(ds_) == 1 and ds_[0][0] == 'stmt' and ds_[0][3]['rv']['k'] == 'use':
+                            st = ds_[0][3]['rv']['op']
+                            continue
+                    break
+            if val is None and is_place(st) and len(st['pl']['p']) == 1 and st['pl']['p'][0][0] == 'field':
+                # `let (raw_value, stagnant) = match initial_value { .. => (x, true), .. }`: the pair assigned on this path
+                from ..facts import const_value, is_const
+                for x in p.blocks:
+                    for s in pn.blocks[x]['stmts']:
+                        if s['k'] == 'assign' and not s['lhs']['p'] and s['lhs']['l'] == st['pl']['l'] and s['rv']['k'] == 'agg' and s['rv'].get('ak') == 'tuple':
+                            o = s['rv']['ops'][st['pl']['p'][0][1]]
+                            val = bool(const_value(o)) if is_const(o) and const_value(o) is not None else None
             fixed = bool(arm) and arm[-1] == 'Fixed'
             if val is None or not arm:
                 ok, why = False, 'unrecognised-shape: the stagnant flag of a new parameter is %s' % dv[:60]
